@@ -70,7 +70,7 @@ def gen_ret_case(tier, seed, k):
     rnd = run.rng("C12", tier, seed, "ret", k)
     m = gen_lp.family(rnd, rnd.choice(["small-rand", "small-int", "degenerate", "planted-opt", "planted-opt", "illcond", "thin", "tiny"]))
     cfg = sf.rnd_config(rnd, entries=("exact-primal", "exact-dual"), limits=False)
-    lines, slot = sf.case_script(rnd, m, cfg)
+    lines, slot = sf.case_script(rnd, m, cfg, returns_basis=True)
     # the judged solve returns its basis in b0; then verdicts on it and a warm start from it on a fresh object
     L = lines + ["dump_basis b0", "basis_optimalstatus p0 b0", "basis_dualstatus p0 b0", "verify p0 b0 0 0", "verify p0 b0 1 0", "verify p0 b0 1 1"]
     L += model.script_build(m, "p3") + sf.param_lines(cfg, "p3") + ["solve_exact p3 %s b0 xy" % ("primal" if cfg["entry"] == "exact-primal" else "dual"), "dumpsol p3"]
